@@ -507,6 +507,11 @@ def run_check(prop, tier, seed, jobs=16, only=None, scale=1.0):
         if e["property"] != prop:
             continue
         w = json.load(open(os.path.join(VERIF, e["witness"])))
+        if w["cfg"] not in cfgs:
+            # the witness lives in a configuration this tier does not build: listed, not replayed here
+            known_lines.append("KNOWN-FINDING: property=%s %s [witness configuration %s is outside the %s tier; "
+                               "not replayed here]" % (prop, e["what"], w["cfg"], tier))
+            continue
         try:
             build.ensure(w["cfg"])
             outs = replay_case(mod, w["target"], w["cfg"], unjson(w["case"]), times=1)
